@@ -9,7 +9,7 @@ LEVELS = json.load(open(os.path.join(ROOT, "levels.json")))
 CHECKS = {
  "C11": ("reference-model monitor (sorted map) over random part.Tree histories + persistence re-verification of retained versions/clones/iterators; race detector/checkptr slice",
          "Exploration: thousands of seeded random histories (grow/shrink fan-out phases through every node size, abandoned transactions, side branches) are executed on the real part.Tree and every return value and every retained version is compared with a sorted-map model after every transaction. Evidence is 'held on K histories', not a proof.",
-         "Trusts the sorted-map model in harness/partsim and Go's race detector/checkptr; only one transaction in flight per lineage; clones are read-only.", "5/C11"),
+         "Trusts the sorted-map model in harness/partsim and Go's race detector/checkptr; only one transaction in flight per lineage; side branches start from trees and from clones; Txn.All loops that write to the transaction they iterate must yield the contents at the time of the call; keys of 65 536 bytes or more are known finding D15.", "5/C11"),
  "C12": ("watch-channel oracle (must-close / must-stay-open sets computed from a model) evaluated at every Notify of random part.Tree histories",
          "Exploration: seeded random histories with up to 80 retained channels (root, Get, Prefix, InsertWatch/ModifyWatch, from trees and from inside transactions), in per-node and root-only modes; the root watch is held to exactness, the others to must-close, and no channel may close outside Notify.",
          "Trusts the model of which keys a transaction changed; spurious closes of Get/Prefix channels are not violations (the statement only demands closing).", "5/C12"),
@@ -22,24 +22,24 @@ CHECKS = {
  "C18": ("bounded-exhaustive enumeration monitor: encoded composite keys of all enumerated (secondary, primary) pairs must be strictly increasing in specification order and split back; black-box order read-back through List/Prefix/LowerBound; encoder domains",
          "Exploration with a bounded-exhaustive core: all pairs of byte strings of length 0..3 over {00,01,02,ff} (quick; 0..4 over {00,01,02,7f,ff} thorough) are encoded with the real encoder (exposed under the verif tag) and compared in specification order, which decides injectivity and order preservation for every pair of the enumerated space; Uint16 over its whole domain, 32/64-bit encoders over boundary sets and seeded samples, LPM keys for all prefix lengths 0..32 x sampled words. Long primaries are probed at listed lengths only.",
          "The enumerated space is small by design (short strings); long keys only at the listed probe lengths (those failing are known findings D9). Signed encoders are only checked for injectivity, as the statement says.", "5/C18"),
- "C20": ("virtual-time (testing/synctest) monitor comparing return time, returned set, error and Has() of WatchSet.Wait with an executable model over random close/cancel/settle schedules",
-         "Exploration: seeded random schedules run under virtual time so that return instants are exact; up to three consecutive Wait calls per set; sets built with Add duplicates, Clear and Merge; all three settle regimes and cancellation before/after the first close.",
-         "Event times are kept distinct so the model has no ties; real-timer granularity is out of scope (virtual time).", "5/C20"),
+ "C20": ("virtual-time (testing/synctest) monitor comparing return time, returned set, error and Has() of WatchSet.Wait with an executable model over random close/cancel/settle schedules, earlier results re-read after later calls; concurrent Wait/Add/Has on one set under the race detector with an exactly-once oracle over all returned channels",
+         "Exploration: seeded random schedules run under virtual time so that return instants are exact; up to three consecutive Wait calls per set; sets built with Add duplicates, Clear and Merge; all three settle regimes and cancellation before/after the first close; plus real-time runs under -race in which 2-4 goroutines call Wait on one set while others add, close and probe (every channel returned at most once, only added and closed ones, membership afterwards).",
+         "Event times are kept distinct so the model has no ties; real-timer granularity is out of scope (virtual time); in the concurrent part a closed member not returned within 30 s of wall-clock time is reported inconclusive, not as a violation.", "5/C20"),
  "C01": ("transcript monitor: retained snapshots (and retained result sequences) are re-queried after every later transaction/abort/collection window and compared with the transcript recorded at creation and with the model of that snapshot; virtual time for graveyard collection; race detector with concurrent snapshot readers, a writer and a table registrar",
          "Exploration: seeded random histories under testing/synctest with the DB started; up to 16 retained snapshots per history taken between transactions, while a write transaction is pending and from Commit; LPM-heavy variant with several objects per prefix; table registrations running into commits; plus a -race part where 6 readers rebuild the model from each snapshot's primary index, check every index against it and keep re-verifying retained transcripts (and the set of tables) while a writer history and a registrar run.",
          "Trusts the reference model (harness/dbsim) and the fixed probe battery; frozenness is decided by transcript equality on a fixed probe set per snapshot, not on all possible queries.", "5/C01"),
  "C03": ("reference-model monitor (keyed map with learned revisions) over return values, error kinds and in-transaction reads of random write histories; race/checkptr slice",
-         "Exploration: seeded random histories of all RWTable write operations with guards drawn from current/stale/foreign/future revisions, writes on tables not held and through finished handles, commits and aborts; every return value and the query battery (inside the transaction, after commit, after abort) is compared with the model.",
+         "Exploration: seeded random histories of all RWTable write operations with guards drawn from current/stale/foreign/future revisions, writes on tables not held and through finished handles, commits and aborts; every return value and the query battery (inside the transaction, after commit, after abort) is compared with the model; variants with wide fan-out keys (sweeps through every radix node size), long and deeply nested keys, and with change iterators created, read and closed between the operations (graveyard maintenance by Insert/Delete).",
          "Trusts the map model; guard 0 and re-insertion of the same pointer are outside the domain.", "5/C03"),
  "C04": ("reference-model monitor: full query battery on every index compared with results brute-forced from the model's object set (result-sequence oracle)",
-         "Exploration: seeded random histories over four schemas (unique, non-unique multi-key, NetIPPrefix LPM, unique LPM) with hostile keys; Get/List/Prefix/LowerBound/All/NumObjects/by-revision and AnyTable string queries inside write transactions and on snapshots.",
+         "Exploration: seeded random histories over six schemas (unique, non-unique multi-key, NetIPPrefix LPM with IPv4/IPv6/4in6 and comb-shaped prefix sets, unique LPM, wide fan-out with sweeps through every radix node size, long and deeply nested keys) with hostile keys; Get/List/Prefix/LowerBound/All/NumObjects/by-revision and AnyTable string queries inside write transactions and on snapshots.",
          "Trusts the brute-force model; LPM Get/List only with full-length keys and stored prefixes; nil keys mean 'no key'.", "5/C04"),
  "C07": ("change-stream monitor: per-iterator replay map and the model's committed write/deletion log, under virtual time with graveyard collection running; hook-point probe of the commit window; Observable stream; real-time consumer goroutines under the race detector",
          "Exploration: seeded random histories under testing/synctest (collector every 1 ms of virtual time): iterators created at arbitrary points incl. inside transactions and aborted ones, Next with fresh/older/write transactions, partial consumption, Close; strictly increasing revisions, only-committed, replay==snapshot, deletions delivered, open channel closed by the next commit.",
          "Snapshots passed to Next are monotone and not older than the iterator. Under real concurrency whether Next's channel was already closed cannot be observed reliably, so convergence is judged after a non-empty fully drained sequence and at the final quiescent state; the missed-wake-up window (Next between root store and notification) is enumerated with the committer paused at the hook points.", "5/C07"),
  "C09": ("revision monitor: the model learns each revision from Revision(wtxn) and asserts strict monotonicity, attribution, no change on rejected/no-op/aborted/collector/tracker commits, ByRevision order",
-         "Exploration: seeded random histories (sequential) plus histories with change iterators, Close and graveyard collection commits under virtual time.",
-         "Revisions are required to be strictly increasing, not +1; concurrent writers on other tables are exercised by the C05/C10 stress parts.", "5/C09"),
+         "Exploration: seeded random histories (sequential) plus histories with change iterators, Close and graveyard collection commits under virtual time, plus a -race part with one writer per table, revision samplers, iterator churn, the collector and a goroutine registering tables (revision constant within a snapshot, non-decreasing across snapshots and commits, never below the last committed one).",
+         "Revisions are required to be strictly increasing, not +1.", "5/C09"),
  "C05": ("hook-point pause/probe controller (fault enumeration of interleavings) + race-detector stress with delay injection, table-holder and lock-order monitors, sequence-counter conservation and porcupine strict-serializability check of recorded histories",
          "Fault enumeration: writer A is paused at each of 9 hook points (commit and abort variants) while a same-table writer, a disjoint-table writer or NewTable runs; plus exploration by concurrent histories under -race with delays injected at the hook points, every history checked by porcupine against a counter-vector model.",
          "Windows without a hook point are reached only by the stress part; the 'B must not be granted' probe waits 1.5 ms (reaching the lock is definite, not reaching it just ends the probe); porcupine timeouts are inconclusive.", "5/C05"),
@@ -59,14 +59,14 @@ CHECKS = {
          "Fault enumeration at the commit hook points (channel open up to and including commit.rootLocked, closed only by the completing commit, closed implies a fresh snapshot says initialized) on every commit of seeded random histories of registrations and marks across committed and aborted transactions; plus waiter goroutines under -race with delay injection.",
          "Initializer names are unique per registration; done functions from registrations in aborted transactions are not called.", "5/C19"),
  "C14": ("virtual-time (testing/synctest) monitor of the real reconciler (hive job group) against a simulated target: bounded-convergence check after failures and changes stop",
-         "Exploration: seeded random runs over configurations (single/batch, round size 1/2/3/1000, limiter none/10 ms, four backoff settings, refresh and pruning on/off) with per-call failures, writes injected inside operations and between the operation and the status commit, status-only writes by a second reconciler; liveness is restated as bounded progress in virtual time.",
+         "Exploration: seeded random runs over configurations (single/batch, round size 1/2/3/1000, limiter none/10 ms, four backoff settings, refresh and pruning on/off) with per-call failures, writes injected inside operations and between the operation and the status commit, status-only writes by a simulated second reconciler, and in a third of the runs 1-4 further real reconcilers (own status slot, target and failures) on the same table, each held to the same convergence obligations; liveness is restated as bounded progress in virtual time.",
          "Bound: 2 x RetryBackoffMax + (objects+5) x (limiter interval + 35 ms) + 1 s of virtual time; with refreshing enabled a Refreshing status at the final instant is accepted.", "5/C14"),
  "C15": ("virtual-time monitor over the attempt log and user-write log of the real reconciler: table == latest user writes, statuses backed by attempts, foreign statuses preserved, Update/Prune call preconditions",
-         "Exploration: the C14 runs with every placement of user writes {between rounds, inside Update/Delete/UpdateBatch, between the operation and the status commit} x {update, delete, delete+re-insert, status-only by a second reconciler} x {success, failure}; invariants evaluated at every quiescent point.",
+         "Exploration: the C14 runs with every placement of user writes {between rounds, inside Update/Delete/UpdateBatch, between the operation and the status commit} x {update, delete, delete+re-insert, status-only by a second reconciler} x {success, failure}; invariants evaluated at every quiescent point; in a third of the runs 1-4 further real reconcilers share the table (their statuses must be backed by their own attempts); plus a value-semantics part for StatusSet (Set/Pending/JSON on a pool of versions, every earlier version re-read).",
          "The model of user writes is updated under the table lock; quiescent points are synctest.Wait() after sleeping.", "5/C15"),
  "C16": ("virtual-time monitor over the timestamps of operation attempts and the values returned by WaitUntilReconciled, exact in pacing runs",
          "Exploration: general runs check the lower bound (no retry sooner than RetryBackoffMin) and that WaitUntilReconciled(rev) never returns nil before every still-current change <= rev was attempted; pacing runs (instantaneous operations, unlimited limiter) check non-shrinking waits, the cap, the fresh first wait after change/success and the exact low-watermark at quiescent points.",
-         "A status-only write by another reconciler between a failure and the next attempt makes that pair unjudged (both immediate reprocessing and paced retry are legitimate); watermark model = revision argument of the oldest pending failed attempt.", "5/C16"),
+         "A status-only write by another reconciler between a failure and the next attempt makes that pair unjudged (both immediate reprocessing and paced retry are legitimate); the lower bound is judged in runs without refreshing and without further real reconcilers (their writes are not in the event log) and exactly in the pacing runs; 'change up to rev' is read by revision: an object that another writer moved to a revision above rev is a later change; watermark model = revision argument of the oldest pending failed attempt.", "5/C16"),
 }
 
 NOT_YET = "check not built yet in this session (planned: see DESIGN.md section 5)"
